@@ -1,7 +1,7 @@
 (* Props/C13.v -- statements claimed for C13 (geometric measures), about Model/TriaGeom.v over R. *)
 From Coq Require Import List Arith Reals.
 From LaPyV Require Import Base.Scalar Base.Vec3 Base.ListAux Base.Sparse Model.TetMesh Model.TriaAdj Model.TriaOrient
-  Model.Fem Model.TriaGeom Proofs.SparseP Proofs.FemTriaP Proofs.TriaGeomP Proofs.TriaOrientP Proofs.TriaAdjP Proofs.InvarianceP Proofs.VolumeTransP Proofs.VolumeScaleP Proofs.QualityInvarP Proofs.FlowP Proofs.CentroidAffP Proofs.TetRigidP Proofs.EdgeLenInvarP Proofs.VertexAreasInvarP Proofs.NormalsTransP Proofs.NormalOffsetP Proofs.AreaInvarP.
+  Model.Fem Model.TriaGeom Proofs.SparseP Proofs.FemTriaP Proofs.TriaGeomP Proofs.TriaOrientP Proofs.TriaAdjP Proofs.InvarianceP Proofs.VolumeTransP Proofs.VolumeScaleP Proofs.QualityInvarP Proofs.FlowP Proofs.CentroidAffP Proofs.TetRigidP Proofs.EdgeLenInvarP Proofs.VertexAreasInvarP Proofs.NormalsTransP Proofs.NormalsScaleP Proofs.NormalOffsetP Proofs.AreaInvarP.
 Import ListNotations.
 Open Scope R_scope.
 
@@ -202,3 +202,9 @@ Theorem C13_tria_normals_translation_invariant : forall c v ts, tris_in_range (l
   tria_normals Rops (translate c v) ts = tria_normals Rops v ts.
 Proof. exact tria_normals_translation_invariant. Qed.
 Print Assumptions C13_tria_normals_translation_invariant.
+
+(* ... and by every positive uniform scaling *)
+Theorem C13_tria_normals_scale_invariant : forall s v ts, 0 < s -> tris_in_range (length v) ts ->
+  tria_normals Rops (map (vscaleR s) v) ts = tria_normals Rops v ts.
+Proof. exact tria_normals_scale_invariant. Qed.
+Print Assumptions C13_tria_normals_scale_invariant.
